@@ -5,7 +5,7 @@ export PYTHONPATH=/repo:/verif/harness PYTHONHASHSEED=0 PYTHONDONTWRITEBYTECODE=
 sh coq/mk_project.sh
 mkdir -p evidence && { echo "== ExtrOcamlBasic.v"; grep -n "^Extract\|^Extraction" /usr/lib/ocaml/coq/theories/extraction/ExtrOcamlBasic.v; echo "== ExtrOcamlZBigInt.v"; sed -n "/^Extract/,\$p" /usr/lib/ocaml/coq/theories/extraction/ExtrOcamlZBigInt.v; } > evidence/extraction_directives.txt 2>/dev/null
 for g in harness/gen_coq*.py; do [ -f "$g" ] && { /venv/bin/python "$g" || echo "setup: $g failed"; }; done; sh coq/mk_project.sh
-(cd coq && timeout 7000 make -j16 -k) || echo "setup: coq make reported errors (checks will report them per property)"
+(cd coq && ulimit -v 25165824 2>/dev/null; timeout 7000 make -j16 -k) || echo "setup: coq make reported errors (checks will report them per property)"
 /venv/bin/python - <<'PY'
 import os, sys, glob
 sys.path.insert(0, "/verif/harness")
